@@ -1,0 +1,358 @@
+//! Verification hooks (feature `verif_hooks`). Add-only instrumentation: serialises values that
+//! the macro computes anyway, to `$LEXGEN_VERIF_DUMP_DIR/<LexerName>.dump`. Nothing here changes
+//! what the macro generates.
+
+use crate::ast::{CharOrRange, Regex, RegexCtx, Rule, RuleKind, RuleOrBinding, RuleRhs};
+use crate::semantic_action_table::SemanticActionTable;
+
+use std::cell::RefCell;
+use std::fmt::Write as _;
+use std::io::Write as _;
+
+thread_local! {
+    static DUMP_FILE: RefCell<Option<std::path::PathBuf>> = const { RefCell::new(None) };
+}
+
+pub fn enabled() -> bool {
+    DUMP_FILE.with(|f| f.borrow().is_some())
+}
+
+pub fn emit(text: &str) {
+    DUMP_FILE.with(|f| {
+        if let Some(path) = f.borrow().as_ref() {
+            let mut file = std::fs::OpenOptions::new()
+                .create(true)
+                .append(true)
+                .open(path)
+                .expect("verif_hooks: cannot open dump file");
+            file.write_all(text.as_bytes())
+                .expect("verif_hooks: cannot write dump file");
+        }
+    });
+}
+
+pub fn begin(lexer_name: &str) {
+    let dir = match std::env::var_os("LEXGEN_VERIF_DUMP_DIR") {
+        None => {
+            DUMP_FILE.with(|f| *f.borrow_mut() = None);
+            return;
+        }
+        Some(dir) => dir,
+    };
+    let mut path = std::path::PathBuf::from(dir);
+    path.push(format!("{}.dump", lexer_name));
+    DUMP_FILE.with(|f| *f.borrow_mut() = Some(path));
+    emit(&format!("BEGIN {}\n", lexer_name));
+}
+
+pub fn end() {
+    emit("END\n");
+    DUMP_FILE.with(|f| *f.borrow_mut() = None);
+}
+
+pub fn regex_to_string(re: &Regex, out: &mut String) {
+    match re {
+        Regex::Builtin(b) => write!(out, " bi {}", b.0).unwrap(),
+        Regex::Var(v) => write!(out, " var {}", v.0).unwrap(),
+        Regex::Char(c) => write!(out, " chr {}", *c as u32).unwrap(),
+        Regex::String(s) => {
+            write!(out, " str {}", s.chars().count()).unwrap();
+            for c in s.chars() {
+                write!(out, " {}", c as u32).unwrap();
+            }
+        }
+        Regex::CharSet(set) => {
+            write!(out, " set {}", set.0.len()).unwrap();
+            for item in &set.0 {
+                match item {
+                    CharOrRange::Char(c) => write!(out, " c {}", *c as u32).unwrap(),
+                    CharOrRange::Range(s, e) => {
+                        write!(out, " r {} {}", *s as u32, *e as u32).unwrap()
+                    }
+                }
+            }
+        }
+        Regex::ZeroOrMore(r) => {
+            out.push_str(" star");
+            regex_to_string(r, out);
+        }
+        Regex::OneOrMore(r) => {
+            out.push_str(" plus");
+            regex_to_string(r, out);
+        }
+        Regex::ZeroOrOne(r) => {
+            out.push_str(" opt");
+            regex_to_string(r, out);
+        }
+        Regex::Concat(a, b) => {
+            out.push_str(" cat");
+            regex_to_string(a, out);
+            regex_to_string(b, out);
+        }
+        Regex::Or(a, b) => {
+            out.push_str(" alt");
+            regex_to_string(a, out);
+            regex_to_string(b, out);
+        }
+        Regex::Any => out.push_str(" any"),
+        Regex::EndOfInput => out.push_str(" eoi"),
+        Regex::Diff(a, b) => {
+            out.push_str(" diff");
+            regex_to_string(a, out);
+            regex_to_string(b, out);
+        }
+    }
+}
+
+fn rule_or_binding_to_string(
+    prefix: &str,
+    rb: &RuleOrBinding,
+    table: &SemanticActionTable,
+    out: &mut String,
+) {
+    match rb {
+        RuleOrBinding::Binding(b) => {
+            write!(out, "{} let {}", prefix, b.var.0).unwrap();
+            regex_to_string(&b.re, out);
+            out.push('\n');
+        }
+        RuleOrBinding::Rule(rule) => {
+            let idx = rule.rhs.as_usize();
+            let kind = match table.iter().nth(idx).map(|(_, rhs)| rhs) {
+                Some(RuleRhs::None) => "none",
+                Some(RuleRhs::Rhs { kind, .. }) => match kind {
+                    RuleKind::Simple => "simple",
+                    RuleKind::Fallible => "fallible",
+                    RuleKind::Infallible => "infallible",
+                },
+                None => "unknown",
+            };
+            let RegexCtx { re, right_ctx } = &rule.lhs;
+            write!(out, "{} rule {} {} re", prefix, kind, idx).unwrap();
+            regex_to_string(re, out);
+            if let Some(ctx) = right_ctx {
+                out.push_str(" ctx");
+                regex_to_string(ctx, out);
+            }
+            out.push('\n');
+        }
+    }
+}
+
+pub fn dump_ast(rules: &[Rule], table: &SemanticActionTable) {
+    if !enabled() {
+        return;
+    }
+    let mut out = String::new();
+    out.push_str("AST\n");
+    for rule in rules {
+        match rule {
+            Rule::ErrorType { .. } => out.push_str("item errortype\n"),
+            Rule::RuleOrBinding(rb) => rule_or_binding_to_string("item", rb, table, &mut out),
+            Rule::RuleSet { name, rules } => {
+                writeln!(out, "item ruleset {}", name).unwrap();
+                for rb in rules {
+                    rule_or_binding_to_string("rsitem", rb, table, &mut out);
+                }
+                out.push_str("endruleset\n");
+            }
+        }
+    }
+    out.push_str("ENDAST\n");
+    emit(&out);
+}
+
+pub fn dump_entries(tag: &str, dfas: &crate::collections::Map<String, crate::dfa::StateIdx>) {
+    if !enabled() {
+        return;
+    }
+    let mut entries: Vec<(String, String)> = dfas
+        .iter()
+        .map(|(name, idx)| (name.clone(), format!("{}", idx)))
+        .collect();
+    entries.sort();
+    let mut out = String::new();
+    for (name, idx) in entries {
+        writeln!(out, "{} {} {}", tag, name, idx).unwrap();
+    }
+    emit(&out);
+}
+
+pub fn dump_code(tag: &str, tokens: &proc_macro2::TokenStream) {
+    if !enabled() {
+        return;
+    }
+    let text = tokens.to_string().replace('\n', " ");
+    emit(&format!("CODE {} {}\n", tag, text));
+}
+
+////////////////////////////////////////////////////////////////////////////////////////////////////
+// Component server: drives crate-internal components through a line protocol. Only compiled for
+// `cargo test --features verif_hooks`; does nothing unless LEXGEN_VERIF_OPS is set.
+
+#[cfg(test)]
+mod server {
+    use crate::ast;
+    use crate::range_map::{Range, RangeMap};
+    use crate::semantic_action_table::SemanticActionTable;
+
+    use std::fmt::Write as _;
+    use syn::parse::Parser;
+
+    fn show_map(map: &RangeMap<Vec<u32>>, out: &mut String) {
+        for r in map.iter() {
+            write!(out, " {} {} [", r.start, r.end).unwrap();
+            let mut vs = r.value.clone();
+            vs.sort();
+            vs.dedup();
+            for (i, v) in vs.iter().enumerate() {
+                if i > 0 {
+                    out.push(',');
+                }
+                write!(out, "{}", v).unwrap();
+            }
+            out.push(']');
+        }
+    }
+
+    fn merge(a: &mut Vec<u32>, b: Vec<u32>) {
+        a.extend(b)
+    }
+
+    /// Ops (one sequence per line, ops separated by `;`):
+    ///   `i s e v`            insert
+    ///   `m k s e v ...`      insert_ranges of k sorted non-overlapping ranges
+    ///   `r k s e ...`        remove_ranges of k sorted non-overlapping ranges
+    /// Output: the map after each op, ops separated by `;`, or `PANIC` for a panicking op.
+    fn rangemap_line(line: &str) -> String {
+        let mut map: RangeMap<Vec<u32>> = RangeMap::new();
+        let mut out = String::new();
+        for (op_idx, op) in line.split(';').enumerate() {
+            let toks: Vec<&str> = op.split_whitespace().collect();
+            if toks.is_empty() {
+                continue;
+            }
+            let nums: Vec<u32> = toks[1..].iter().map(|t| t.parse().unwrap()).collect();
+            let res = std::panic::catch_unwind(std::panic::AssertUnwindSafe(|| match toks[0] {
+                "i" => map.insert(nums[0], nums[1], vec![nums[2]], merge),
+                "m" => {
+                    let k = nums[0] as usize;
+                    let ranges: Vec<Range<Vec<u32>>> = (0..k)
+                        .map(|j| Range {
+                            start: nums[1 + 3 * j],
+                            end: nums[2 + 3 * j],
+                            value: vec![nums[3 + 3 * j]],
+                        })
+                        .collect();
+                    map.insert_ranges(ranges.into_iter(), merge)
+                }
+                "r" => {
+                    let k = nums[0] as usize;
+                    let ranges: Vec<Range<()>> = (0..k)
+                        .map(|j| Range {
+                            start: nums[1 + 2 * j],
+                            end: nums[2 + 2 * j],
+                            value: (),
+                        })
+                        .collect();
+                    let other = RangeMap::from_non_overlapping_sorted_ranges(ranges);
+                    map.remove_ranges(&other)
+                }
+                other => panic!("unknown rangemap op {}", other),
+            }));
+            if op_idx > 0 {
+                out.push_str(" ;");
+            }
+            match res {
+                Ok(()) => show_map(&map, &mut out),
+                Err(_) => {
+                    out.push_str(" PANIC");
+                    break;
+                }
+            }
+        }
+        out
+    }
+
+    /// Input: the text of a lexer definition. Output: `OK` + the AST in dump syntax (newlines
+    /// replaced by ` | `), `ERR` for a syn error, `PANIC` for a panic.
+    fn parse_line(line: &str) -> String {
+        let res = std::panic::catch_unwind(|| {
+            let mut table = SemanticActionTable::new();
+            let parsed = ast::make_lexer_parser(&mut table).parse_str(line);
+            match parsed {
+                Ok(lexer) => {
+                    let mut out = String::from("OK");
+                    for rule in &lexer.rules {
+                        match rule {
+                            ast::Rule::ErrorType { .. } => out.push_str(" | errortype"),
+                            ast::Rule::RuleOrBinding(rb) => {
+                                out.push_str(" |");
+                                show_rb(rb, &mut out);
+                            }
+                            ast::Rule::RuleSet { name, rules } => {
+                                write!(out, " | ruleset {} {{", name).unwrap();
+                                for rb in rules {
+                                    out.push_str(" |");
+                                    show_rb(rb, &mut out);
+                                }
+                                out.push_str(" | }");
+                            }
+                        }
+                    }
+                    out
+                }
+                Err(_) => String::from("ERR"),
+            }
+        });
+        res.unwrap_or_else(|_| String::from("PANIC"))
+    }
+
+    fn show_rb(rb: &ast::RuleOrBinding, out: &mut String) {
+        match rb {
+            ast::RuleOrBinding::Binding(b) => {
+                write!(out, " let {}", b.var.0).unwrap();
+                super::regex_to_string(&b.re, out);
+            }
+            ast::RuleOrBinding::Rule(rule) => {
+                out.push_str(" rule re");
+                super::regex_to_string(&rule.lhs.re, out);
+                if let Some(ctx) = &rule.lhs.right_ctx {
+                    out.push_str(" ctx");
+                    super::regex_to_string(ctx, out);
+                }
+            }
+        }
+    }
+
+    #[test]
+    fn verif_component_server() {
+        let ops = match std::env::var_os("LEXGEN_VERIF_OPS") {
+            None => return,
+            Some(ops) => ops,
+        };
+        let out_path = std::env::var_os("LEXGEN_VERIF_OUT").expect("LEXGEN_VERIF_OUT");
+        let input = std::fs::read_to_string(ops).unwrap();
+        let mut out = String::new();
+        // Silence panic messages of ops that are expected to panic.
+        std::panic::set_hook(Box::new(|_| {}));
+        for line in input.lines() {
+            let (cmd, rest) = match line.split_once(' ') {
+                Some(x) => x,
+                None => (line, ""),
+            };
+            let res = match cmd {
+                "rangemap" => rangemap_line(rest),
+                "parse" => parse_line(rest),
+                "backtrack" => crate::dfa::verif_dump::backtrack_line(rest),
+                _ => String::from("UNKNOWN"),
+            };
+            out.push_str(cmd);
+            out.push(' ');
+            out.push_str(res.trim_start());
+            out.push('\n');
+        }
+        let _ = std::panic::take_hook();
+        std::fs::write(out_path, out).unwrap();
+    }
+}
